@@ -367,7 +367,7 @@ pub fn execute(scn: &Scn, property: &str) -> RunOutcome {
                         format!("current_state is {:?}, last state set is {}", now.state, model.cur),
                         format!("history={history}"),
                     ));
-                } else if let Some(f) = vals_differ(&now.values, &model.values) {
+                } else if let Some(f) = model.accept(&now.values) {
                     v = Some(viol(
                         "C05",
                         "values",
@@ -401,7 +401,7 @@ pub fn execute(scn: &Scn, property: &str) -> RunOutcome {
                         format!("after {op:?} (history {history}): {d}"),
                         format!("history={history} op={op_code}"),
                     ));
-                } else if now.ended != model.is_ended_differential() {
+                } else if now.ended != model.is_ended_differential() && Some(now.ended) != model.is_ended_differential_alt() {
                     v = Some(viol(
                         "C05",
                         "is-ended-differential",
@@ -1319,7 +1319,7 @@ fn accumulator_check(spec: &AnimSpec, var: &Segmented, out: &mut RunOutcome) -> 
                 if tau != expect {
                     return Some((idx, format!("time in state {tau:?} after steps {s:?}, exact sum of the steps is {expect:?}")));
                 }
-                if let Some(f) = vals_differ(anim.current_values(), &model.values) {
+                if let Some(f) = model.accept(anim.current_values()) {
                     return Some((idx, format!(
                         "values {} differ from the timeline evaluated at the accumulated time {:?}: {} (field {f})",
                         vals_brief(anim.current_values()), model.tau, vals_brief(&model.values)
